@@ -75,7 +75,28 @@ def var_bound_to_call(fn, callname):
 def c10_2(rep, ix, R="C10.2"):
     rep.rule(R, "every parse feeds the caller's unmodified text to the generated lexer, token stream and parser, installs the Blackbird error listener (after removing the defaults) "
                 "before the single start() call, and touches no other parser/lexer setting", floor=14)
+    pipelines = sorted(q for q, f_ in ix.funcs.items() if f_.mod in ("listener", "__init__", "auxiliary") and var_bound_to_call(f_.node, "blackbirdParser"))
+    if not pipelines:
+        raise Inconclusive("no function of the package constructs a blackbirdParser")
+    helpers = [q for q in pipelines if q not in PIPELINES]
     for q in PIPELINES:
+        f = ix.func(q)
+        if q in pipelines:
+            continue
+        # the parse is delegated to a helper: its argument must be the caller's unmodified stream
+        calls = [c for c in walk_shallow(f.node) if isinstance(c, ast.Call) and isinstance(c.func, ast.Name) and ix.resolve_name(f.mod, c.func.id) in helpers]
+        ok = len(calls) == 1 and len(calls[0].args) == 1 and not calls[0].keywords
+        src = resolve(f.node, calls[0].args[0]) if ok else None
+        if q == "listener.parse":
+            ok = ok and is_param(f.node, calls[0].args[0])
+        else:
+            ok = ok and isinstance(src, ast.Call) and u(src.func).endswith("FileStream")
+        rep.check(ok, R, ix.site(f), "%s hands its unmodified input stream to the parsing helper (exactly one parse)" % q, "passes `%s`" % (u(src) if src is not None else None), key=q + "|delegates")
+        for n in walk_shallow(f.node):
+            if isinstance(n, ast.Try):
+                for h in n.handlers:
+                    rep.check(always_raises(h.body), R, ix.site(f, h), "%s: no exception handler absorbs an error of the parse" % q, key=q + "|swallow")
+    for q in pipelines:
         f = ix.func(q)
         fn = f.node
         lex = var_bound_to_call(fn, "blackbirdLexer")
@@ -90,9 +111,9 @@ def c10_2(rep, ix, R="C10.2"):
             rep.check(len(assigns(fn, v)) == 1, R, ix.site(f), "%s: `%s` is bound exactly once" % (q, v), key="%s|once %s" % (q, v))
         # lexer input
         src = resolve(fn, lc.args[0]) if lc.args else None
-        if q == "listener.parse":
+        if q != "listener.BlackbirdListener.exitInclude":
             ok = lc.args and is_param(fn, lc.args[0]) and len(lc.args) == 1 and not lc.keywords
-            rep.check(ok, R, ix.site(f, lc), "parse(): the lexer reads the `data` stream exactly as passed in (no pre-processing of the script text)",
+            rep.check(ok, R, ix.site(f, lc), "%s: the lexer reads the input stream exactly as passed in (no pre-processing of the script text)" % q.split(".")[-1],
                       "lexer input is `%s`" % (u(src) if src is not None else None), key=q + "|lexer input")
         else:
             ok = isinstance(src, ast.Call) and u(src.func).endswith("FileStream") and len(lc.args) == 1
@@ -236,21 +257,34 @@ def c10_4(rep, ix):
     fn = f.node
     for p in ("line", "column"):
         rep.check(not assigns(fn, p), R, ix.site(f), "parameter `%s` is never rebound in syntaxError" % p, key="rebound " + p)
+    from ..py import norm
     for n in walk_shallow(fn):
         if not isinstance(n, ast.Raise) or not isinstance(n.exc, ast.Call) or not n.exc.args:
             continue
         msg = n.exc.args[0]
         key = " ".join(u(n).split())[:90]
-        if not (isinstance(msg, ast.Call) and isinstance(msg.func, ast.Attribute) and msg.func.attr == "format"):
-            rep.bad(R, ix.site(f, n), "`%s` formats line and column into its message" % key, "message is not a str.format call", key="fmt|" + key)
+        parts = message_parts(fn, msg, n)
+        if parts is None:
+            rep.bad(R, ix.site(f, n), "`%s` formats line and column into its message" % key, "message is not a recognisable format expression", key="fmt|" + key)
             continue
-        tmpl = resolve_str(fn, msg.func.value, n)
-        args = msg.args
-        ok_t = tmpl is not None and re.match(r"^Blackbird SyntaxError \(line \{\}:\{\}\)", tmpl) is not None
-        ok_a = len(args) >= 2 and u(args[0]) == "line" and u(args[1]) in ("column + 1", "1 + column")
-        nph = len(re.findall(r"\{\}", tmpl or ""))
-        rep.check(ok_t and ok_a, R, ix.site(f, n), "`%s`: message template starts 'Blackbird SyntaxError (line {}:{})' and its first two arguments are line, column + 1" % key,
-                  "template %r, arguments %s" % ((tmpl or "")[:50], [u(a) for a in args[:2]]), key="msg|" + key)
+        lits = [p for p in parts]
+        ok = len(parts) >= 4 and parts[0][0] == "lit" and parts[0][1] == "Blackbird SyntaxError (line " and parts[1][0] == "expr" and u(parts[1][1]) == "line" \
+            and parts[2] == ("lit", ":") and parts[3][0] == "expr" and " ".join(u(parts[3][1]).split()) in ("column + 1", "1 + column") \
+            and len(parts) > 4 and parts[4][0] == "lit" and parts[4][1].startswith(")")
+        shown = "".join(p[1] if p[0] == "lit" else "{%s}" % u(p[1]) for p in parts)[:70]
+        rep.check(ok, R, ix.site(f, n), "`%s`: the message starts 'Blackbird SyntaxError (line {line}:{column + 1})'" % key, "message `%s`" % shown, key="msg|" + key)
+
+
+def message_parts(fn, msg, at):
+    """canonical parts of a message expression; a template held in a local name is looked up at its latest assignment before `at`"""
+    from ..py import norm
+    if isinstance(msg, ast.Call) and isinstance(msg.func, ast.Attribute) and msg.func.attr == "format" and isinstance(msg.func.value, ast.Name):
+        tmpl = resolve_str(fn, msg.func.value, at)
+        if tmpl is None:
+            return None
+        fake = ast.Call(func=ast.Attribute(value=ast.Constant(value=tmpl), attr="format", ctx=ast.Load()), args=msg.args, keywords=msg.keywords)
+        return norm.fmt_parts(fake)
+    return norm.fmt_parts(msg)
 
 
 def resolve_str(fn, e, before):
